@@ -37,6 +37,9 @@ pub enum Op {
     SwapBlocks { a: (u64, usize), b: (u64, usize) },
     /// makes a file LONGER than a WAL file is supposed to be
     Extend { file: u64, bytes: Vec<u8> },
+    /// the i-th WAL file (in numeric order) is renamed to number base + i * stride: an
+    /// order-preserving renumbering (gaps allowed) must not change what the directory means
+    Renumber { base: u64, stride: u64, variant: i64 },
     Add(Extra),
 }
 
@@ -52,6 +55,7 @@ fn op_json(op: &Op) -> Value {
         Op::CopyBlock { from, to } => json!({"k": "cpblock", "f": from.0, "o": from.1, "n": to.0 * 1000 + to.1 as u64}),
         Op::SwapBlocks { a, b } => json!({"k": "swapblocks", "f": a.0, "o": a.1, "n": b.0 * 1000 + b.1 as u64}),
         Op::Extend { file, bytes } => json!({"k": "extend", "f": file, "o": 0, "n": bytes.len()}),
+        Op::Renumber { stride, variant, .. } => json!({"k": "renumber", "f": variant, "o": 0, "n": stride}),
         Op::Add(extra) => match extra {
             Extra::File { name, .. } => json!({"k": "addfile", "f": -1, "o": 0, "n": name.len()}),
             Extra::Dir { name } => json!({"k": "adddir", "f": -1, "o": 0, "n": name.len()}),
@@ -88,6 +92,12 @@ fn apply(files: &mut BTreeMap<u64, FileImg>, extras: &mut Vec<Extra>, op: &Op) {
         Op::Extend { file, bytes } => {
             if let Some(img) = files.get_mut(file) {
                 img.data.extend_from_slice(bytes);
+            }
+        }
+        Op::Renumber { base, stride, .. } => {
+            let old = std::mem::take(files);
+            for (idx, (_, img)) in old.into_iter().enumerate() {
+                files.insert(base + idx as u64 * stride, img);
             }
         }
         Op::TruncateFile { file, len } => {
@@ -850,6 +860,23 @@ pub fn cmd(args: &Args) {
         }
         if classes.iter().any(|cls| cls == "hostile") {
             hostile_cases(script, &live, &mut cases);
+        }
+        if classes.iter().any(|cls| cls == "renumber") && !image.files.is_empty() {
+            // 20-digit numbers: below, across and above 10^19, and near the top of u64 (far enough from
+            // it for the roll-overs of a continuation)
+            let count = image.files.len() as u64;
+            let ten19 = 10_000_000_000_000_000_000u64;
+            let bases = [
+                (1u64, 7u64),
+                (ten19 - 1, 1),
+                (ten19 - 2, 3),
+                (ten19 + 5, 1),
+                (u64::MAX - 1000 - 3 * count, 3),
+                (999_999_999, 1),
+            ];
+            for (variant, (base, stride)) in bases.iter().enumerate() {
+                cases.push(Case { cls: "renumber", ops: vec![Op::Renumber { base: *base, stride: *stride, variant: variant as i64 }], hit: 0, hit_type: 0 });
+            }
         }
         if max_cases > 0 && cases.len() > max_cases {
             // thin evenly
